@@ -131,6 +131,13 @@ impl Socket {
   ///
   /// The `frames` Vec should have MsgFlags::MORE set correctly on all but the last Msg.
   pub async fn send_multipart(&self, frames: Vec<Msg>) -> Result<(), ZmqError> {
+    if frames.len() > FrameBatch::MAX_FRAMES {
+      return Err(ZmqError::InvalidMessage(format!(
+        "a multipart message holds at most {} frames, got {}",
+        FrameBatch::MAX_FRAMES,
+        frames.len()
+      )));
+    }
     self.inner.send_multipart(FrameBatch::from(frames)).await
   }
 
